@@ -229,6 +229,23 @@ pub fn oracle(ctx: &mut Ctx) {
         if ok && (off != filtered.len() || recon_all != img.data) {
             ok = false;
         }
+        // correspondence with the image-level model: exact for the standard strategies; for the
+        // heuristic ones the per-row choice is read back from the output and must be one the model allows
+        if ok {
+            if strat <= 4 {
+                ctx.line(&format!("filter_image {} {}", strat, img.to_line()), &format!("ok {}", hex(&filtered)));
+            } else {
+                let mut choices = vec![];
+                let mut off = 0;
+                for (_, _, line) in img.lines() {
+                    choices.push(filtered[off].to_string());
+                    off += 1 + line.len();
+                }
+                if !choices.is_empty() {
+                    ctx.line(&format!("filter_image c:{} {}", choices.join(","), img.to_line()), &format!("ok {}", hex(&filtered)));
+                }
+            }
+        }
         if !ok {
             st.fail(
                 "roundtrip",
